@@ -193,8 +193,9 @@ func hasMap(t reflect.Type) bool {
 }
 
 func c03Run(x *engine.X) {
-	root := x.Choose(len(rowTypes)*c01SeqKinds, "type*seqkind")
-	rt := rowTypes[root/c01SeqKinds]
+	types := append(append([]*RT{}, rowTypes...), anyRowTypes...)
+	root := x.Choose(len(types)*c01SeqKinds, "type*seqkind")
+	rt := types[root/c01SeqKinds]
 	kind := root % c01SeqKinds
 	x.Descf("type=%s", rt.Name)
 	rows, ok := chooseRowSeq(x, rt, kind)
@@ -212,7 +213,8 @@ func c03Run(x *engine.X) {
 			x.Descf("cuts=%v", cuts)
 		}
 	}
-	mapType := hasMap(rt.Type)
+	// (maps written to GROUP nodes of an explicit schema are ordered by the schema)
+	mapType := hasMap(rt.Type) && !rt.ExplicitSchema
 
 	ref, err := c03Stream(rt, "Writer.Write", rows, cuts)
 	if err != nil {
@@ -256,6 +258,15 @@ func c03Run(x *engine.X) {
 			break
 		}
 		row := schema.Deconstruct(nil, r)
+		if rt.ExplicitSchema {
+			// what an interface-typed field is re-assembled as is not documented
+			if s := streamOf([]parquet.Row{row})[0]; s != ref[i] {
+				x.Failf("stream-mismatch", fmt.Sprintf("type=%s;path=Deconstruct;col=%s", rt.Name, firstDiffColumn(ref[i], s)),
+					"row %d: Deconstruct differs from what Writer.Write(any) stored:\n  ref: %s\n  got: %s", i, ref[i], s)
+				break
+			}
+			continue
+		}
 		p := rt.New()
 		if err := schema.Reconstruct(p, row); err != nil {
 			x.Failf("reconstruct-error", "type="+rt.Name, "Reconstruct: %v", err)
@@ -306,11 +317,12 @@ func init() {
 	Register(&engine.Prop{
 		ID:    "C03",
 		Level: "exploration",
-		Rule: "row type x row sequence (as C01) x batch split; 10 ingestion paths (incl. typed Write and WriteRows alternating on one GenericWriter, and a GenericBuffer whose pages and rows are read between batches) compared value-by-value (column, bytes, repetition, definition level) against the reflection path, plus Reconstruct(Deconstruct(v)); " +
+		Rule: "row type (as C01, plus 2 types with interface-typed fields used with an explicit schema: any leaves, groups given as map[string]any or structs, []any lists, below slices, pointers and two groups deep; hand-built alphabets, one factor at a time around an all-absent and an all-present row) x row sequence (as C01) x batch split; 10 ingestion paths (incl. typed Write and WriteRows alternating on one GenericWriter, and a GenericBuffer whose pages and rows are read between batches) compared value-by-value (column, bytes, repetition, definition level) against the reflection path, plus Reconstruct(Deconstruct(v)); " +
 			"non-trivial = >=2 rows; distinct by case description",
 		Assumptions: []string{
 			"the reflection path Writer.Write(any) is the comparison reference: a disagreement is a violation of 'every path stores exactly that sequence' whichever side is wrong",
 			"map-typed rows: only row counts and re-assembly are compared (entry order is unspecified)",
+			"types with interface-typed fields: streams are compared on every path; re-assembly is not (what such a field is re-assembled as is not part of the documented mapping)",
 		},
 		Bound: func(string) int { return 0 },
 		Run:   c03Run,
